@@ -130,8 +130,6 @@ fn guarded(rec: &mut Recorder, rng: &mut Rng, sched: &Schedule, label: &str, cas
     let mut crng = rng.fork();
     match vh::catch(std::panic::AssertUnwindSafe(|| run_case(rec, &mut crng, sched, label))) {
         Ok(()) => {}
-        // F1-family Bug-assert after a failed merge (being repaired under C06/C09): a note here
-        Err(p) if is_f1_panic(&p) => rec.notes.push(format!("case {case}: known F1-family assert: {p}")),
         Err(p) => rec.panics.push(format!("case {case}: {p}")),
     }
 }
@@ -177,8 +175,9 @@ fn main() {
         let d = gen_dag(&mut rng, &p);
         let cmds = realize(&d, args.seed.wrapping_mul(1_000_003).wrapping_add(case as u64));
         rec.begin_case();
-        // until F1 is repaired, rejected commands are delivered in their own transaction
-        let per_cmd = p.check_pct > 0 || rng.chance(1, 3);
+        // (F1 is repaired: rejected commands no longer poison a transaction, so bodies with
+        // state-dependent checks are delivered in batches too)
+        let per_cmd = rng.chance(1, 3);
         rec.count(if per_cmd { "mode:per-command-trx" } else { "mode:batched-trx" });
         if rec.cases() <= 2 {
             rec.sample(cmds.iter().map(cmd_line).collect::<Vec<_>>().join(" | "));
